@@ -6,7 +6,7 @@
 //
 //	ref    {vod, asset, adm, reps, nv, na, listed, cls}   the scanning server (no metadata root) of this VoD root
 //	hdr    {beh, vod, root, map, desc}                    a behaviour starts: all metadata files are wiped
-//	damage {rep, kind, variant, off} / remove {rep}       file actions ("rep" = "<asset>/<representation>")
+//	damage {rep, kind, variant, off, precond} / remove {rep}  file actions ("rep" = "<asset>/<representation>")
 //	start  {inst, write, ok, err}                         a server was started on the current files
 //	asset  {inst, asset, listed, cls, diff}               its answers for one asset (cls: per request class
 //	                                                      [c, n, n200, n404, dig]; dig = digest over (url,status,body digest))
@@ -28,6 +28,7 @@ import (
 	"os"
 	"path/filepath"
 	"regexp"
+	"runtime/debug"
 	"sort"
 	"strings"
 	"sync"
@@ -331,11 +332,11 @@ func buildPool(assets []*assetTruth, ref *srv.S) (*pool, error) {
 		tnr := tl.Cfg{Mode: "tlnr", SNR: -1, TSBD: -1}
 		for _, m := range a.MPDs {
 			for _, c := range []tl.Cfg{num, tim, tnr} {
-				for _, now := range []int64{t1MS, t1MS + 777, t2MS} {
+				for _, now := range []int64{t1MS, t2MS} {
 					add("mpd", c.Prefix(a.Name)+"/"+m, now)
 				}
 			}
-			add("mpd", tl.Cfg{Mode: "number", SNR: 7, TSBD: 20, AtoMS: 500}.Prefix(a.Name)+"/"+m, t2MS)
+			add("mpd", tl.Cfg{Mode: "number", SNR: 7, TSBD: 20, AtoMS: 500}.Prefix(a.Name)+"/"+m, t1MS+777)
 		}
 		reps := []*project.RepTruth{a.V}
 		if a.A != nil {
@@ -629,21 +630,31 @@ func gunzip(data []byte) ([]byte, error) {
 	return io.ReadAll(r)
 }
 
-// damage replaces the metadata file of rep ("asset/rep") under dir. Returns (variant, offset).
-func damage(dir, rep, kind string, rng *rand.Rand) (string, int, error) {
+// damage replaces the metadata file of rep ("asset/rep") under dir. Returns (variant, offset, precond).
+// precond = false: the model says the file is a good one but the bytes on disk are not a gzipped document (a
+// write-mode start did not leave a usable file); the action is then carried out on whatever is there and the
+// trace specification treats the result as "garbage" (the lenient kind).
+func damage(dir, rep, kind string, rng *rand.Rand) (string, int, bool, error) {
 	asset, id := filepath.Split(rep)
 	base := filepath.Join(dir, asset, id+"_data.json")
 	gzp := base + ".gz"
 	cur, curErr := os.ReadFile(gzp)
+	var plain []byte
+	good := false
+	if curErr == nil {
+		if pl, err := gunzip(cur); err == nil && len(pl) > 0 {
+			plain, good = pl, true
+		}
+	}
 	_ = os.Remove(base)
 	_ = os.Remove(gzp)
 	if err := os.MkdirAll(filepath.Dir(base), 0o755); err != nil {
-		return "", 0, err
+		return "", 0, false, err
 	}
 	switch kind {
 	case "truncated":
-		if curErr != nil || len(cur) < 2 {
-			return "", 0, fmt.Errorf("truncate %s: no good file (%v)", rep, curErr)
+		if !good || len(cur) < 2 {
+			return "cut-of-unusable-file", len(cur) / 2, false, os.WriteFile(gzp, cur[:len(cur)/2], 0o644)
 		}
 		off := 1 + rng.Intn(len(cur)-1)
 		switch rng.Intn(4) {
@@ -652,47 +663,39 @@ func damage(dir, rep, kind string, rng *rand.Rand) (string, int, error) {
 		case 1:
 			off = 1 + rng.Intn(10) // inside the gzip header
 		}
-		return "cut", off, os.WriteFile(gzp, cur[:off], 0o644)
+		return "cut", off, true, os.WriteFile(gzp, cur[:off], 0o644)
 	case "empty":
-		return "zero-bytes", 0, os.WriteFile(gzp, nil, 0o644)
+		return "zero-bytes", 0, true, os.WriteFile(gzp, nil, 0o644)
 	case "plainjson":
-		if curErr != nil {
-			return "", 0, fmt.Errorf("plainjson %s: no good file (%v)", rep, curErr)
+		if !good {
+			return "plain-copy-of-unusable-file", 0, false, os.WriteFile(base, cur, 0o644)
 		}
-		plain, err := gunzip(cur)
-		if err != nil {
-			return "", 0, fmt.Errorf("plainjson %s: %w", rep, err)
-		}
-		return "gunzipped", 0, os.WriteFile(base, plain, 0o644)
+		return "gunzipped", 0, true, os.WriteFile(base, plain, 0o644)
 	case "garbage":
-		var plain []byte
-		if curErr == nil {
-			plain, _ = gunzip(cur)
-		}
 		switch v := rng.Intn(6); {
 		case v == 0:
 			b := make([]byte, 1+rng.Intn(300))
 			rng.Read(b)
-			return "random-bytes", len(b), os.WriteFile(gzp, b, 0o644)
+			return "random-bytes", len(b), true, os.WriteFile(gzp, b, 0o644)
 		case v == 1:
 			b := make([]byte, 1+rng.Intn(200))
 			for i := range b {
 				b[i] = byte(32 + rng.Intn(90))
 			}
-			return "gzip-of-text", len(b), os.WriteFile(gzp, gz(b), 0o644)
+			return "gzip-of-text", len(b), true, os.WriteFile(gzp, gz(b), 0o644)
 		case v == 2:
-			return "gzip-of-empty-object", 0, os.WriteFile(gzp, gz([]byte("{}")), 0o644)
+			return "gzip-of-empty-object", 0, true, os.WriteFile(gzp, gz([]byte("{}")), 0o644)
 		case v == 4:
 			// a well-formed record of another shape: no segment table
-			return "gzip-of-record-without-segments", 0, os.WriteFile(gzp, gz([]byte(`{"id":"`+id+`","contentType":"video","mediaTimescale":90000,"initURI":"`+id+`/init.mp4","mediaURI":"`+id+`/$Number$.m4s","segments":[]}`)), 0o644)
+			return "gzip-of-record-without-segments", 0, true, os.WriteFile(gzp, gz([]byte(`{"id":"`+id+`","contentType":"video","mediaTimescale":90000,"initURI":"`+id+`/init.mp4","mediaURI":"`+id+`/$Number$.m4s","segments":[]}`)), 0o644)
 		case v == 3 && len(plain) > 2:
 			off := 1 + rng.Intn(len(plain)-1)
-			return "gzip-of-json-prefix", off, os.WriteFile(gzp, gz(plain[:off]), 0o644)
+			return "gzip-of-json-prefix", off, true, os.WriteFile(gzp, gz(plain[:off]), 0o644)
 		default:
-			return "gzip-of-json-array", 0, os.WriteFile(gzp, gz([]byte(`[{"id":"x"}]`)), 0o644)
+			return "gzip-of-json-array", 0, true, os.WriteFile(gzp, gz([]byte(`[{"id":"x"}]`)), 0o644)
 		}
 	}
-	return "", 0, fmt.Errorf("unknown damage kind %q", kind)
+	return "", 0, false, fmt.Errorf("unknown damage kind %q", kind)
 }
 
 func removeRep(dir, rep string) {
@@ -715,7 +718,7 @@ type worker struct {
 	memo   *parseMemo
 
 	instances, cacheRead, requests int
-	fullWindows                    int
+	fullWindows, precondFailed     int
 	tStart, tObs                   time.Duration
 	outcomes                       map[string]int
 	samples                        []any
@@ -848,11 +851,14 @@ func (wk *worker) runBeh(idx int, b Beh, mp [2]string, seed int64) error {
 			if dir == "" {
 				return fmt.Errorf("behaviour %d: damage without a metadata root", idx)
 			}
-			variant, off, err := damage(dir, rep, a.K, rng)
+			variant, off, precond, err := damage(dir, rep, a.K, rng)
 			if err != nil {
 				return fmt.Errorf("behaviour %d (%s): %w", idx, b, err)
 			}
-			wk.w.Emit(tr.E{"ev": "damage", "rep": rep, "kind": a.K, "variant": variant, "off": off})
+			if !precond {
+				wk.precondFailed++
+			}
+			wk.w.Emit(tr.E{"ev": "damage", "rep": rep, "kind": a.K, "variant": variant, "off": off, "precond": precond})
 		case "remove":
 			if dir == "" {
 				return fmt.Errorf("behaviour %d: remove without a metadata root", idx)
@@ -962,7 +968,7 @@ func (wk *worker) probeCacheIsRead() (bool, error) {
 	}
 	defer s.Cancel()
 	obs := observe(s, wk.assets, wk.pool, wk.memo, false)
-	return outcomeOf(obs["g_irr90k"], wk.ref["g_irr90k"]) != "scan" && outcomeOf(obs["testpic_2s"], wk.ref["testpic_2s"]) == "scan", nil
+	return outcomeOf(obs["g_irr90k"], wk.ref["g_irr90k"]) != "scan", nil
 }
 
 // ---------------------------------------------------------------- main
@@ -973,9 +979,10 @@ func Main(args []string) error {
 	gen := fs.String("gen", "", "behaviours from TLC (one JSON object per line)")
 	work := fs.String("work", "", "scratch directory")
 	seed := fs.Int64("seed", 1, "seed")
-	n := fs.Int("n", 0, "number of behaviours to replay (0 = all); behaviours ending in two starts are always kept")
+	n := fs.Int("n", 0, "number of behaviours to replay (0 = all); behaviours ending in Start, Start(read) are always kept (they cover every shorter behaviour as a prefix)")
 	workers := fs.Int("workers", 4, "parallel workers (one VoD root copy each)")
 	_ = fs.Parse(args)
+	debug.SetGCPercent(400) // thousands of short-lived server instances: trade memory for time
 	if *work == "" || *gen == "" {
 		return fmt.Errorf("-work and -gen required")
 	}
@@ -1004,7 +1011,7 @@ func Main(args []string) error {
 		var rest []Beh
 		for _, b := range all {
 			k := len(b.Acts)
-			if k >= 2 && b.Acts[k-1].A == "start" && b.Acts[k-2].A == "start" {
+			if k >= 2 && b.Acts[k-1].A == "start" && !b.Acts[k-1].W && b.Acts[k-2].A == "start" {
 				sel = append(sel, b) // covers every shorter behaviour as a prefix
 			} else {
 				rest = append(rest, b)
@@ -1052,7 +1059,7 @@ func Main(args []string) error {
 		return err
 	}
 	if !probe {
-		return fmt.Errorf("vacuity probe: an altered (valid) metadata file did not change the answers for its asset only - the cache is not read")
+		return fmt.Errorf("vacuity probe: an altered (valid) metadata file did not change the answers for its asset - the cache is not read")
 	}
 
 	// replay
@@ -1085,7 +1092,7 @@ func Main(args []string) error {
 			return e
 		}
 	}
-	events, instances, cacheRead, requests, fullWindows := 0, 0, 0, 0, 0
+	events, instances, cacheRead, requests, fullWindows, precondFailed := 0, 0, 0, 0, 0, 0
 	var tStart, tObs time.Duration
 	outcomes := map[string]int{}
 	var traces []string
@@ -1098,6 +1105,7 @@ func Main(args []string) error {
 		cacheRead += wk.cacheRead
 		requests += wk.requests
 		fullWindows += wk.fullWindows
+		precondFailed += wk.precondFailed
 		tStart += wk.tStart
 		tObs += wk.tObs
 		for o, c := range wk.outcomes {
@@ -1124,7 +1132,7 @@ func Main(args []string) error {
 	}
 	tr.PrintStats(map[string]any{"scenarios": len(sel), "behaviours_available": len(all), "events": events, "distinct": len(distinct),
 		"samples": samples, "instances": instances, "cache_read_instances": cacheRead, "requests": requests, "pool": wks[0].pool.n + 1,
-		"outcomes": outcomes, "assets": names, "traces": traces, "probe_cache_is_read": probe, "full_contig_windows": fullWindows, "workers": len(wks),
+		"outcomes": outcomes, "assets": names, "traces": traces, "probe_cache_is_read": probe, "full_contig_windows": fullWindows, "damage_on_unusable_file": precondFailed, "workers": len(wks),
 		"cpu_start_s": tStart.Seconds(), "cpu_observe_s": tObs.Seconds()})
 	return nil
 }
